@@ -67,6 +67,9 @@ func (c *c04) Cases(tier string, seed int64) []core.Case {
 	cs = append(cs, core.MkCase("files-255-plus-1-volume", p1Params{r.Int63(), "max255files"}))
 	cs = append(cs, core.MkCase("singular-constructed", p1Params{r.Int63(), "singular"}))
 	cs = append(cs, core.MkCase("upper-case-extension", p1Params{r.Int63(), "upper-ext"}))
+	for i := 0; i < map[string]int{"quick": 3, "thorough": 30}[tier]; i++ {
+		cs = append(cs, core.MkCase(fmt.Sprintf("twin-sets-other-names-%d", i), p1Params{r.Int63(), "twin-sets"}))
+	}
 	for i := 0; i < map[string]int{"quick": 3, "thorough": 40}[tier]; i++ {
 		cs = append(cs, core.MkCase(fmt.Sprintf("big-files-%d", i), p1Params{r.Int63(), "big"}))
 	}
@@ -454,6 +457,10 @@ func (c *c04) Run(cs core.Case) core.Result {
 	core.Decode(cs, &p)
 	r := core.NewR(cs)
 	rng := rand.New(rand.NewSource(p.Seed))
+	if p.Kind == "twin-sets" {
+		c.runTwinSets(r, rng)
+		return r.Done()
+	}
 	if p.Kind == "upper-ext" {
 		c.runUpperExt(r, rng)
 		return r.Done()
@@ -621,4 +628,80 @@ func minInt(a, b int) int {
 		return a
 	}
 	return b
+}
+
+// runTwinSets: two PAR1 sets in two directories protect the same contents
+// under different names of equal length (a renamed copy with its own set: the
+// set hash covers content hashes only). They are verified and repaired one
+// after the other in this process, in both orders: each under its own names.
+func (c *c04) runTwinSets(r *core.R, rng *rand.Rand) {
+	root, err := os.MkdirTemp("", "c04twin-")
+	if err != nil {
+		r.Inconclusive("tempdir: %v", err)
+		return
+	}
+	defer os.RemoveAll(root)
+	nf := 2 + rng.Intn(3)
+	var contents [][]byte
+	for i := 0; i < nf; i++ {
+		contents = append(contents, scen.GenData(rng, "random", 1+rng.Intn(600), 16))
+	}
+	type twin struct {
+		dir, idx string
+		names    []string
+	}
+	mk := func(tag string, letter byte) (twin, error) {
+		t := twin{dir: filepath.Join(root, tag)}
+		os.MkdirAll(t.dir, 0755)
+		var paths []string
+		for i := range contents {
+			n := fmt.Sprintf("%c%c%c%ca-%d.dat", letter, letter+1, letter, letter+2, i)
+			t.names = append(t.names, n)
+			os.WriteFile(filepath.Join(t.dir, n), contents[i], 0644)
+			paths = append(paths, filepath.Join(t.dir, n))
+		}
+		t.idx = filepath.Join(t.dir, "set.par")
+		return t, par1.Create(t.idx, paths, par1.CreateOptions{NumParityFiles: 2})
+	}
+	a, errA := mk("A", 'a')
+	b, errB := mk("B", 'k')
+	if errA != nil || errB != nil {
+		r.Violate("create-failed", "twin sets: %v / %v", errA, errB)
+		return
+	}
+	judge := func(t twin, what string) {
+		var vr par1.VerifyResult
+		var verr error
+		if pi := core.Protect(func() { vr, verr = par1.Verify(t.idx, par1.VerifyOptions{VerifyAllData: true}) }); pi != nil {
+			r.Violate(core.CrashSig("par1.Verify", pi.Frame, pi.Msg), "%s: Verify panicked: %s", what, pi.Msg)
+			return
+		}
+		if verr != nil || vr.FileCounts.UsableDataFileCount != nf || vr.FileCounts.UnusableDataFileCount != 0 {
+			r.Violate("data-counts-wrong", "%s: untouched set: usable/unusable = %d/%d, truth %d/0 (err=%v)", what, vr.FileCounts.UsableDataFileCount, vr.FileCounts.UnusableDataFileCount, nf, verr)
+		}
+		victim := rng.Intn(nf)
+		os.Remove(filepath.Join(t.dir, t.names[victim]))
+		before := scen.Snapshot(t.dir)
+		var rr par1.RepairResult
+		var rerr error
+		if pi := core.Protect(func() { rr, rerr = par1.Repair(t.idx, par1.RepairOptions{}) }); pi != nil {
+			r.Violate(core.CrashSig("par1.Repair", pi.Frame, pi.Msg), "%s: Repair panicked: %s", what, pi.Msg)
+			return
+		}
+		got, _ := os.ReadFile(filepath.Join(t.dir, t.names[victim]))
+		if rerr != nil || string(got) != string(contents[victim]) {
+			r.Violate("repair-failed-within-capacity", "%s: one file deleted, two volumes: Repair err=%v, repaired %v, file restored=%v", what, rerr, rr.RepairedPaths, string(got) == string(contents[victim]))
+		}
+		for _, d := range scen.DiffSnap(before, scen.Snapshot(t.dir)) {
+			if !strings.HasSuffix(d, " "+t.names[victim]) {
+				r.Violate("repair-wrote-other-file", "%s: Repair of one deleted file changed the directory: %s", what, d)
+			}
+		}
+		r.Count("twin_set_rounds", 1)
+	}
+	judge(a, "set A first")
+	judge(b, "set B (same contents, other names) after set A in the same process")
+	judge(a, "set A again after set B")
+	r.Key("twin-sets|%d", nf)
+	r.Sample(map[string]interface{}{"kind": "twin-sets", "files": nf})
 }
